@@ -359,7 +359,8 @@ fn options_case(rep: &mut Report, seed: u64, idx: u64, thorough: bool) {
     };
     // anchor: a few members of the re-serialisation against values computed here
     let pk = &base["publicKey"];
-    if pk["challenge"] != json!(d.challenge) {
+    // (the build that serialises byte strings as base64url text writes the member as a string)
+    if pk["challenge"] != json!(d.challenge) && pk["challenge"] != json!(oracle::b64url(&d.challenge)) {
         rep.violate("parsed challenge differs from the document's bytes", String::new(), case0.clone());
     }
     if let Some(t) = d.timeout {
